@@ -87,6 +87,67 @@ def r5_no_reset_on_clean_iteration(ck, cx):
 
 
 
+SETUP_METHODS = ('__init__', 'setup', 'finish', 'connection_made', 'connectionMade', 'connection_lost', 'connectionLost', 'error_received')
+MUTATORS = ('append', 'add', 'update', 'setdefault', 'insert', 'extend', 'put', 'put_nowait', 'appendleft', '__setitem__', 'pop', 'popitem', 'remove', 'discard', 'clear')
+
+
+def r11_no_memory_of_earlier_traffic(ck, cx, rule='R11'):
+    """What a front-end answers is a function of the request and of the datastore.  The reference front-end keeps nothing of the
+    traffic it has seen (its only per-connection state is the framer, which holds unconsumed bytes, and constant flags); a sibling
+    that stores something derived from a received message / peer address in an attribute of its own and consults it later answers
+    from its memory where the others execute the request.  The asyncio handlers' receive queue (an asyncio.Queue created in
+    __init__, the channel between the protocol callbacks and the handler task) is transport, not memory."""
+    ck.rule(rule, 'no front-end stores anything derived from received traffic (message bytes, peer address, decoded request, built reply) in its own attributes outside connection set-up: replies depend on the request and the datastore only, as in the reference front-end')
+    n = 0
+    for fe in FRONTENDS:
+        k = cx.idx.cls(fe[1])
+        queues = set()
+        for c in cx.idx.mro(k):
+            if not c.qn.startswith('pymodbus'):
+                continue
+            for m in c.methods.values():
+                if m.name in SETUP_METHODS:
+                    for a in ast.walk(m.node):
+                        if isinstance(a, ast.Assign) and isinstance(a.value, ast.Call) and U(a.value.func).endswith('Queue'):
+                            queues.update(U(t) for t in a.targets)
+        for c in cx.idx.mro(k):
+            if not c.qn.startswith('pymodbus'):
+                continue
+            for m in c.methods.values():
+                if m.name in SETUP_METHODS:
+                    continue
+                ck.saw('functions', m.qn)
+                n += 1
+                local = set(m.params[1:])
+                for a in ast.walk(m.node):
+                    if isinstance(a, (ast.Assign, ast.AugAssign, ast.For, ast.With, ast.NamedExpr)):
+                        for t in ast.walk(a.targets[0] if isinstance(a, ast.Assign) else getattr(a, 'target', a)):
+                            if isinstance(t, ast.Name) and isinstance(t.ctx, ast.Store):
+                                local.add(t.id)
+
+                def derived(e):
+                    return sorted({x.id for x in ast.walk(e) if isinstance(x, ast.Name) and x.id in local})
+                for a in ast.walk(m.node):
+                    hit = None
+                    if isinstance(a, (ast.Assign, ast.AugAssign)):
+                        for t in (a.targets if isinstance(a, ast.Assign) else [a.target]):
+                            if U(t).startswith('self.') and not U(t).startswith(('self.server.', 'self.factory.')):
+                                d = derived(a.value) + (derived(t.slice) if isinstance(t, ast.Subscript) else [])
+                                if d:
+                                    hit = (U(t), d)
+                    elif isinstance(a, ast.Call) and isinstance(a.func, ast.Attribute) and a.func.attr in MUTATORS and U(a.func.value).startswith('self.') \
+                            and U(a.func.value) not in queues and not U(a.func.value).startswith(('self.server.', 'self.factory.', 'self.framer', 'self.transport', 'self.request', 'self.socket')):
+                        d = [x for arg in list(a.args) + [kw.value for kw in a.keywords] for x in derived(arg)]
+                        if d:
+                            hit = (U(a.func.value) + '.' + a.func.attr, d)
+                    if hit:
+                        ck.ob(rule, m.qn, 'keeps nothing of the traffic it handles', False, detail='remembers-traffic %s' % hit[0][:40], loc=cx.floc(m, a),
+                              message='%s (%s) stores `%s` derived from %s: the front-end remembers earlier traffic, so what it answers to a request can depend on what it '
+                                      'was sent before — the other front-ends execute every request against the datastore' % (m.qn, fe[0], hit[0][:60], ', '.join(sorted(set(hit[1])))))
+        ck.ob(rule, k.qn, '%s: methods examined for traffic-derived attribute stores' % fe[0], True)
+    ck.floor(rule, n, 14, 'front-end methods examined')
+
+
 def r8_handler_bound_to_its_server(ck, cx, rule='R8'):
     """asyncio front-end: the event loop creates one protocol object per connection (per endpoint for datagrams) by calling the
     factory it was given WITHOUT arguments.  The handler reads everything it serves from `self.server` (context, unit list,
@@ -251,4 +312,5 @@ def run(ck, tier):
     ck.guard(r9_read_size_covers_an_adu, ck, cx)
     from .c09 import r13_listen_only_stays_unsendable
     ck.guard(r13_listen_only_stays_unsendable, ck, cx, 'R10')
+    ck.guard(r11_no_memory_of_earlier_traffic, ck, cx)
     return cx.idx
